@@ -34,7 +34,7 @@ PROPERTIES: dict[str, dict] = {
     "C08": {"title": "Bounds depend only on current knowledge", "rules": [bounds.rule_bounds, gym.rule_h3_undo, gym.rule_c09_typestate, game.rule_c17_copy_neg_init, game.rule_c17_columns, game.rule_c17_compute_and_state, solvers.rule_c13_pairing_readonly],
             "explanation": _NOTE + " C08: B1-B5 for all six registered computers, H1 no hidden state.",
             "rule": _SITE_RULE},
-    "C09": {"title": "The reveal-one-coalition environment", "rules": [gym.rule_c09_typestate, gym.rule_c09_step, gym.rule_c09_spaces, gym.rule_c09_reset, gym.rule_c09_done, gym.rule_h3_undo, wiring.rule_env_factory, wiring.rule_known_coalitions, normalize.rule_m1, normalize.rule_m2345, game.rule_c17_columns, game.rule_c17_getters, game.rule_c17_copy_neg_init, game.rule_c17_compute_and_state],
+    "C09": {"title": "The reveal-one-coalition environment", "rules": [gym.rule_c09_typestate, gym.rule_c09_step, gym.rule_c09_spaces, gym.rule_c09_reset, gym.rule_c09_done, gym.rule_h3_undo, gym.rule_episode_state_reset, wiring.rule_env_factory, wiring.rule_known_coalitions, normalize.rule_m1, normalize.rule_m2345, game.rule_c17_columns, game.rule_c17_getters, game.rule_c17_copy_neg_init, game.rule_c17_compute_and_state],
             "explanation": _NOTE + " C09: T1 recompute-before-observe typestate, Y1 reveal pairing, Y2 index-space agreement, Y3 reset order/aliasing, Y4 explorable set, Y5 reward sign, D1 done predicate, H3 undo pairing.",
             "rule": _SITE_RULE},
     "C10": {"title": "Every offered generator runs and yields a game of its class", "rules": [generators.rule_nsig, generators.rule_nint, generators.rule_nrng, generators.rule_next_nfac, wiring.rule_graph_game, coalitions.rule_k1_k2, coalitions.rule_k3_operators],
@@ -55,7 +55,7 @@ PROPERTIES: dict[str, dict] = {
     "C15": {"title": "Normalisation", "rules": [normalize.rule_m1, normalize.rule_m2345, wiring.rule_graph_game],
             "explanation": _NOTE + " C15: M1 cancellation-guarded division (exact-zero vs tolerance guard on a cancellation-derived divisor), M2 norm-info before mutation, M3 inverse agreement and tuple order, M4 view contract of the getters, M5 dispatch exhaustiveness.",
             "rule": _SITE_RULE},
-    "C16": {"title": "The size-aggregated environment", "rules": [gym.rule_c16, gym.rule_c09_step, gym.rule_c09_spaces],
+    "C16": {"title": "The size-aggregated environment", "rules": [gym.rule_c16, gym.rule_c09_step, gym.rule_c09_spaces, gym.rule_episode_state_reset],
             "explanation": _NOTE + " C16: Z1 aggregation of every observation/mask, Z2 candidate set = size AND mask, Z3 pass-through, Z4 sizes aligned with the inner explorable list.",
             "rule": _SITE_RULE},
     "C17": {"title": "An incomplete game object is a faithful map", "rules": [game.rule_c17_columns, game.rule_c17_getters, game.rule_c17_copy_neg_init, game.rule_c17_writers, game.rule_c17_compute_and_state, gameplay.rule_l1_lazy_reuse],
